@@ -213,6 +213,9 @@ class MG(da.Solver):
         # Restrict residual (and parameters in case of heterogeneities)
         r = self.restriction(r)
         if self.heterogeneous:
+            # Keep the parameters and smoother of this level to restore them after the
+            # coarse grid correction.
+            fine_level = (self.mass_coeff, self.diffusion_coeff, self.smoother)
             self.restrict_parameters()
 
         # Solve/smooth coarse problem or further V-cycle
@@ -229,7 +232,9 @@ class MG(da.Solver):
         # Pad correction if necessary (to account for odd number of grid points)
         pad_tuple = tuple((0, x.shape[i] - eps.shape[i]) for i in range(self.dim))
         if self.heterogeneous:
-            self.prolongate_parameters(pad_tuple)
+            # NOTE: Prolongating the restricted parameters (prolongate_parameters) does
+            # not reproduce the parameters of this level.
+            self.mass_coeff, self.diffusion_coeff, self.smoother = fine_level
         eps = np.lib.pad(
             eps,
             pad_tuple,
